@@ -128,3 +128,5 @@ func HexLower(b []byte) string {
 }
 
 func hexNibble(n byte) byte { return hexdigits[n&15] }
+
+func newBytesReader(b []byte) io.Reader { return bytes.NewReader(b) }
